@@ -13,7 +13,8 @@
 (***************************************************************************)
 EXTENDS OpenSkill
 
-CONSTANTS Kind, EmitDepth
+CONSTANTS Kind, EmitDepth,
+          NWalks        \* 0: exhaustive; n > 0: n random walks (one successor per state, chosen with TLC!RandomElement)
 
 VARIABLE hist          \* the observations of the behaviour so far (history variable, for emission only)
 
@@ -51,12 +52,27 @@ MCObjectCalls(ms, h) ==
   \cup {[op |-> "cmp", cmpop |-> c, a |-> RefLeaf(2), b |-> PInt("3")] : c \in {"lt", "eq", "ne"}}
   \cup {[op |-> "assign", ref |-> 2, mu |-> "31.0", sigma |-> h[2].sigma], [op |-> "assign", ref |-> 1, mu |-> h[1].mu, sigma |-> "2.5"]}
 
-SInit == Init /\ hist = <<>>
-SNext == Next /\ hist' = Append(hist, DropX(last'))
-SSpec == SInit /\ [][SNext]_<<vars, hist>>
+VARIABLE walk          \* index of the random walk (0 in exhaustive mode)
+
+\* one randomly chosen call: a state then has a single successor, so a walk costs one evaluation per step
+\* (TLC's own -simulate evaluates every successor of every visited state, hundreds of rate calls per step)
+RandomStep ==
+  LET cat == RandomElement({"rate", "rate", "predict", "object"})
+  IN  CASE cat = "rate"    -> \E d \in {RandomElement(MCRateCalls(models, heap))} : Rate(d)
+        [] cat = "predict" -> \E d \in {RandomElement(MCPredictCalls(models, heap))} : Predict(d)
+        [] OTHER           -> \E d \in {RandomElement(MCObjectCalls(models, heap))} :
+                                 CASE d.op = "rating"   -> NewRating(d)
+                                   [] d.op = "create"   -> CreateRating(d)
+                                   [] d.op = "deepcopy" -> DeepCopy(d)
+                                   [] d.op = "cmp"      -> Compare(d)
+                                   [] d.op = "assign"   -> Assign(d)
+
+SInit == Init /\ hist = <<>> /\ walk \in (IF NWalks = 0 THEN {0} ELSE 1..NWalks)
+SNext == (IF NWalks = 0 THEN Next ELSE RandomStep) /\ hist' = Append(hist, DropX(last')) /\ UNCHANGED walk
+SSpec == SInit /\ [][SNext]_<<vars, hist, walk>>
 
 \* every complete prefix is emitted once, as a JSON array of observations
-EmitHist == depth < 1 \/ depth > EmitDepth \/ EmitLine(EmitFile, ToJson(hist))
+EmitHist == depth < 1 \/ depth > EmitDepth \/ (NWalks > 0 /\ depth < EmitDepth) \/ EmitLine(EmitFile, ToJson(hist))
 
 \* in every reachable state the heap holds exactly what the last observation left for the objects it touched
 HeapFollowsLast == last.op = "rate" /\ Ok(last) => \A x \in Leaves(last.after) : heap[x.ref] = x
